@@ -1,5 +1,14 @@
 // Simulator runtime. Compiled WITHOUT -fsanitize-coverage and WITHOUT -fsanitize=thread
 // (the scheduler must stay invisible to TSan), with -fno-builtin (no libc memset interception).
+#if defined(__has_include)
+#if __has_include(<valgrind/memcheck.h>)
+#include <valgrind/memcheck.h>     // client requests are a few no-op instructions outside valgrind
+#define SIM_MEM_UNDEFINED(p, n) VALGRIND_MAKE_MEM_UNDEFINED(p, n)
+#endif
+#endif
+#ifndef SIM_MEM_UNDEFINED
+#define SIM_MEM_UNDEFINED(p, n) ((void)0)
+#endif
 #include "rt.h"
 #include <atomic>
 #include <cstdarg>
@@ -250,6 +259,7 @@ static void* sim_alloc(size_t n, bool nothrow, int kind, size_t align) {
     void* user = arena_alloc(n, kind);
     if (user) {
       fill_bytes(user, g_fill, n);
+      SIM_MEM_UNDEFINED(user, n);        // memcheck engine: fresh memory is uninitialised, whatever the arena held before
       ++g_as.live_blocks; g_as.live_bytes += (int64_t)n;
       if (g_as.live_bytes > g_as.peak_bytes) g_as.peak_bytes = g_as.live_bytes;
       if ((int64_t)n > g_as.max_request) g_as.max_request = (int64_t)n;
@@ -267,6 +277,7 @@ static void* sim_alloc(size_t n, bool nothrow, int kind, size_t align) {
   h->size = n; h->magic = MAGIC; h->kind = (uint8_t)kind; h->inscope = inscope; h->off = (uint16_t)off;
   void* user = (char*)base + off;
   fill_bytes(user, g_fill, n);
+  SIM_MEM_UNDEFINED(user, n);
   hdr_poison(base, off);
   if (inscope) {
     ++g_as.live_blocks; g_as.live_bytes += (int64_t)n;
